@@ -46,8 +46,8 @@ def gen_cases(rng, tier):
     m = spec.gen_pair_model(rng, groute, target="GULP", reg0=True, nr_choices=[2, 3, 5, 8, 21, 50, 101, 200])
     if groute == "api" and i % 3 == 0:
       m["api_variant"] = "energy_override"
-    if groute == "api" and i % 3 != 0 and i % 4:
-      m["api_results"] = [None, "numpy0d", "numpy0d_int", "numpy0d_cached"][i % 4]
+    if groute == "api" and i % 3 != 0 and i % 5:
+      m["api_results"] = [None, "numpy0d", "numpy0d_int", "numpy0d_cached", "falsy_callable"][i % 5]
     cases.append({"kind": "gulp", "route": route, "model": m, "style": rng.randrange(1 << 30)})
   # decimal grids: the last row is the cutoff itself (a discontinuity just above it, table data ending AT it), and a
   # discontinuity 8 ulps to either side of an upper row - judged strictly at that row
@@ -61,8 +61,8 @@ def gen_cases(rng, tier):
     m = spec.gen_eam_model(rng, "adp", groute, target="eam_adp")
     if groute == "api":
       m["api_containers"] = rng.choice([None, None, "tuple", "generator", "map", "amend_after_write"])
-    if groute == "api" and i % 4:
-      m["api_results"] = [None, "numpy0d", "numpy0d_int", "numpy0d_cached"][i % 4]
+    if groute == "api" and i % 5:
+      m["api_results"] = [None, "numpy0d", "numpy0d_int", "numpy0d_cached", "falsy_callable"][i % 5]
     cases.append({"kind": "adp", "route": route, "model": m, "style": rng.randrange(1 << 30)})
   for i in range(n):
     m = spec.gen_eam_model(rng, "eam", "api", nspecies=1, target="setfl", underspecified=0)
@@ -73,8 +73,8 @@ def gen_cases(rng, tier):
                       {"k": "form", "name": "exp_spline", "p": [spec.rfloat(rng, -1, 1), spec.rfloat(rng, -0.5, 0.1), 0.0, 0.0, 0.0, 0.0, spec.rfloat(rng, 0.0, 2.0)]},
                       {"k": "sum", "a": [{"k": "form", "name": "constant", "p": [spec.rfloat(rng, 0.0, 2.0)]}, {"k": "form", "name": "morse", "p": [1.2, 2.0, -spec.rfloat(rng, 0.1, 2.0)]}]}])
     m["pair"] = [[sp_, sp_, phi]]
-    if i % 4:
-      m["api_results"] = [None, "numpy0d", "numpy0d_int", "numpy0d_cached"][i % 4]
+    if i % 5:
+      m["api_results"] = [None, "numpy0d", "numpy0d_int", "numpy0d_cached", "falsy_callable"][i % 5]
     if i % 8 == 5:
       # a pair potential with a negative region: an ordinary well, or a shallow one under a core twelve or more orders of
       # magnitude larger ("rounding noise" relative to the table's largest value it is not)
@@ -97,8 +97,8 @@ def gen_cases(rng, tier):
                              grids={"nr": rng.choice([2, 3, 5, 9, 21, 60]), "nrho": rng.choice([2, 3, 5, 9, 30])})
       if groute == "api":
         m["api_containers"] = rng.choice([None, None, "tuple", "generator", "map", "amend_after_write"])
-    if groute == "api" and i % 4:
-      m["api_results"] = [None, "numpy0d", "numpy0d_int", "numpy0d_cached"][i % 4]
+    if groute == "api" and i % 5:
+      m["api_results"] = [None, "numpy0d", "numpy0d_int", "numpy0d_cached", "falsy_callable"][i % 5]
     if i % 5 == 2:
       # grids on which (n-1)*cutoff/(n-1) does not give the cutoff back: the last row of every sheet is the cutoff
       g1, g2 = spec.MULDIV_GRIDS[(i // 5) % len(spec.MULDIV_GRIDS)], spec.MULDIV_GRIDS[(i // 5 + 3) % len(spec.MULDIV_GRIDS)]
